@@ -5700,7 +5700,7 @@ write_function_instance(ostream &out, FunctionRemap *remap,
         extra_convert <<
           ";\nif (" << param_name << " != nullptr) {\n"
           "  " << param_name << "_val = Dtool_EnumValue_AsLong(" + param_name + ");\n"
-          "}";
+          "}\n";
       } else {
         extra_convert
           << ";\n"
